@@ -53,13 +53,13 @@ DEVICES = {
 
 CLASSES = [
     "currents_dict_unbalanced", "currents_callable_always", "currents_callable_after_t0", "currents_callable_window", "currents_callable_narrow_window",
-    "unknown_terminal", "unknown_terminal_callable", "epsilon_constant", "epsilon_callable_somewhere", "epsilon_after_t0", "dt_init_gt_dt_max", "terminal_psi_gt_1",
+    "unknown_terminal", "unknown_terminal_extra", "unknown_terminal_callable", "epsilon_constant", "epsilon_callable_somewhere", "epsilon_after_t0", "dt_init_gt_dt_max", "terminal_psi_gt_1",
     "multiplier_out_of_range", "drag_out_of_range", "step_size_nonpositive", "tolerance_nonpositive", "unknown_solver", "gpu_without_cupy",
     "terminal_off_boundary", "terminal_point_contact", "seed_other_layer", "seed_other_film", "seed_other_terminals", "seed_other_mesh", "vector_potential_shape",
     "polygon_self_intersecting", "polygon_multiply_connected", "film_unnamed", "duplicate_terminal_names", "duplicate_hole_names",
     "probe_outside_film", "probe_in_hole",
 ]
-NO_MAG = {"unknown_terminal", "unknown_terminal_callable", "unknown_solver", "gpu_without_cupy", "seed_other_terminals", "seed_other_mesh",
+NO_MAG = {"unknown_terminal", "unknown_terminal_extra", "unknown_terminal_callable", "unknown_solver", "gpu_without_cupy", "seed_other_terminals", "seed_other_mesh",
           "vector_potential_shape", "polygon_self_intersecting", "polygon_multiply_connected", "film_unnamed", "duplicate_terminal_names",
           "duplicate_hole_names", "probe_in_hole", "currents_callable_narrow_window"}
 
@@ -224,6 +224,12 @@ def check_case(spec):
                 kw["terminal_currents"] = currents
             elif cls == "unknown_terminal":
                 kw["terminal_currents"] = {names[0]: 1.0 * iu, "no_such_terminal": -1.0 * iu}
+            elif cls == "unknown_terminal_extra":
+                # the currents of the real terminals balance; a further, non-zero current is assigned to a name that is no terminal
+                # (a misspelt third contact): the assignment as given does not balance and names a terminal that does not exist
+                cur = dict(base_currents())
+                cur["drian"] = 2.5 * iu
+                kw["terminal_currents"] = cur
             elif cls == "unknown_terminal_callable":
                 kw["terminal_currents"] = lambda t: {names[0]: 1.0 * iu, "nope": -1.0 * iu}
             elif cls == "epsilon_constant":
